@@ -46,6 +46,8 @@ Fresh == [
   kind   |-> "none",   \* collection kind of the current run
   cap    |-> 0,        \* capacity / limit given to the constructor
   run    |-> 0,        \* run number (for reports)
+  lastins|-> 0,        \* threaded runs: slot key reported by the insertion hook of the push in progress
+  mt     |-> FALSE,    \* the run has child wakers invoked on other threads (gate-scheduled): a wake takes effect at its flag swap
   ch     |-> NoFn,     \* live children: id -> [st, ob, nt, np, key, addr, wt]
   pend   |-> {},       \* children handed to a push call that has not returned yet
   occ    |-> NoFn,     \* waker key -> child last polled with it
@@ -87,10 +89,10 @@ WorkBound(s) == 256 * (s.peak + 2)
 \* C18: allocations of the unbounded kinds over a whole history
 AllocBound(s) == 4 * CeilLog2(s.peak + 1) + 8
 
-NewChild == [st |-> "held", ob |-> FALSE, nt |-> TRUE, np |-> 0, key |-> 0, addr |-> 0, wt |-> 0]
+NewChild == [st |-> "held", ob |-> FALSE, nt |-> TRUE, ar |-> FALSE, np |-> 0, key |-> 0, addr |-> 0, wt |-> 0]
 
 \* --------------------------------------------------------------- run frame
-StepReset(s, e) == [Fresh EXCEPT !.kind = e.kind, !.cap = e.cap, !.n = e.cap, !.run = e.run]
+StepReset(s, e) == [Fresh EXCEPT !.kind = e.kind, !.cap = e.cap, !.n = e.cap, !.run = e.run, !.mt = "exact" \in DOMAIN e]
 
 StepNew(s, e) ==
   LET s1 == Chk(s, e.res = "ok", "C15", "constructor failed for capacity " \o ToString(s.cap))
@@ -109,7 +111,10 @@ Alloc(s, al) ==
 StepPushB(s, e) == [s EXCEPT !.pend = @ \cup {e.c}]
 
 Accept(s, c, front) ==
-  LET s1 == [s EXCEPT !.ch = (c :> NewChild) @@ @, !.pend = @ \ {c}, !.qn = 0, !.act = TRUE,
+  LET known == s.mt /\ s.lastins # 0
+      s1 == [s EXCEPT !.ch = (c :> (IF known THEN [NewChild EXCEPT !.key = s.lastins] ELSE NewChild)) @@ @,
+                      !.occ = IF known THEN (s.lastins :> c) @@ @ ELSE @, !.lastins = 0,
+                      !.pend = @ \ {c}, !.qn = 0, !.act = TRUE,
                       !.expect = IF s.kind \in OrderedKinds \/ s.kind \in JoinKinds
                                  THEN (IF front THEN <<c>> \o @ ELSE Append(@, c)) ELSE @,
                       !.inputs = IF s.kind \in JoinKinds THEN Append(@, c) ELSE @]
@@ -170,10 +175,13 @@ StepCin(s, e) ==
   ELSE
     LET r  == s.ch[c]
         s1 == Chk(s, r.st = "held", "C05", "finished child polled again")
-        s2 == Chk(s1, r.nt, "C12", "child polled without a push, wake or re-arm since its previous poll")
+        \* with wakers on other threads the collection commits to a poll when it clears the queued flag ("popclr"):
+        \* that is where the notification is consumed; a wake landing after it legitimately buys another poll
+        late == s.mt /\ r.key # 0
+        s2 == Chk(s1, IF late THEN r.ar ELSE r.nt, "C12", "child polled without a push, wake or re-arm since its previous poll")
         s3 == Chk(s2, r.addr = 0 \/ r.addr = e.addr, "C08", "child observed at a different address")
         s4 == Chk(s3, s.work + 1 <= WorkBound(s), "C13", "unbounded child polling inside one poll call")
-    IN [s4 EXCEPT !.ch[c] = [r EXCEPT !.ob = FALSE, !.nt = FALSE, !.np = 1, !.key = e.key,
+    IN [s4 EXCEPT !.ch[c] = [r EXCEPT !.ob = FALSE, !.nt = IF late THEN @ ELSE FALSE, !.ar = FALSE, !.np = 1, !.key = e.key,
                                       !.addr = e.addr, !.wt = 0],
                   !.occ = (e.key :> c) @@ @,
                   !.work = @ + 1]
@@ -214,13 +222,23 @@ StepOdrop(s, e) ==
        ELSE V(s, "C06", "output dropped twice (or never produced)")
 
 \* --------------------------------------------------------------- child wakers
-StepWakeB(s, e) ==
-  LET k  == e.key
-      c  == IF k \in DOMAIN s.occ THEN s.occ[k] ELSE 0
+\* the child whose slot the key denotes gets its notification
+Notify(s, k) ==
+  LET c  == IF k \in DOMAIN s.occ THEN s.occ[k] ELSE 0
       hit == c \in DOMAIN s.ch /\ s.ch[c].st = "held" /\ s.ch[c].key = k /\ ~s.dead
-      s1 == [s EXCEPT !.inwake = @ + 1, !.qn = 0, !.act = TRUE]
-  IN IF hit THEN [s1 EXCEPT !.ch[c].ob = TRUE, !.ch[c].nt = TRUE] ELSE s1
-
+  IN IF hit THEN [s EXCEPT !.ch[c].ob = TRUE, !.ch[c].nt = TRUE] ELSE s
+\* On one thread a waker call is atomic with respect to the polls, so it takes effect where it begins.  With wakers
+\* invoked on other threads the call overlaps polls; it takes effect at its flag swap (hook event "wswap", logged
+\* under the slot lock), and only if the slot was not queued already.
+StepWakeB(s, e) ==
+  LET s1 == [s EXCEPT !.inwake = @ + 1, !.qn = 0, !.act = TRUE]
+  IN IF s.mt THEN s1 ELSE Notify(s1, e.key)
+StepPopclr(s, e) ==
+  LET k == e.b * 100000 + e.i
+      c == IF k \in DOMAIN s.occ THEN s.occ[k] ELSE 0
+      hit == c \in DOMAIN s.ch /\ s.ch[c].st = "held" /\ s.ch[c].key = k
+  IN IF s.mt /\ hit THEN [s EXCEPT !.ch[c].ar = s.ch[c].nt, !.ch[c].nt = FALSE] ELSE s
+StepWswap(s, e) == IF s.mt /\ e.x = 0 THEN Notify(s, e.b * 100000 + e.i) ELSE s
 StepWakeE(s, e) == CheckLost([s EXCEPT !.inwake = IF @ > 0 THEN @ - 1 ELSE 0])
 
 StepTw(s, e) ==
@@ -343,6 +361,9 @@ Step(s, e) ==
     [] e.e = "odrop"  -> StepOdrop(s, e)
     [] e.e = "wake_b" -> StepWakeB(s, e)
     [] e.e = "wake_e" -> StepWakeE(s, e)
+    [] e.e = "wswap"  -> StepWswap(s, e)
+    [] e.e = "popclr" -> StepPopclr(s, e)
+    [] e.e = "ins"    -> IF s.mt THEN [s EXCEPT !.lastins = e.b * 100000 + e.i] ELSE s
     [] e.e = "tw"     -> StepTw(s, e)
     [] e.e = "ret"    -> StepRet(s, e)
     [] e.e = "vec"    -> StepVec(s, e)
